@@ -376,6 +376,24 @@ def _emit_fn(g, source, a, blocks, vacuity, probe_insert=None):
                 raise ExtractError(f"anchor lost: signature text `{old}` in {f.name}")
             sigtext = _replace_norm(sigtext, old, new)
             rules.append(("R8", f"signature: {old.strip()} -> {new.strip()}"))
+    if a.get("opaque_move_closures"):
+        # R11d: a zero-argument `move || { .. }` closure (the body of a thread / runtime factory) is NOT verified: it is
+        # replaced by an opaque `vopaque_closure()`; everything inside it (including async blocks) goes with it
+        from rsx import match_close as _mc5
+        cnt = 0
+        while True:
+            tk = tokenize(body_src)
+            sigk = [k for k, t in enumerate(tk) if t.kind not in ("ws", "comment")]
+            hit = None
+            for q, k in enumerate(sigk):
+                if tk[k].kind == "ident" and tk[k].text == "move" and q + 2 < len(sigk) and tk[sigk[q + 1]].text == "||" and tk[sigk[q + 2]].text == "{":
+                    hit = (k, _mc5(tk, sigk[q + 2])); break
+            if not hit: break
+            body_src = "".join(t.text for t in tk[:hit[0]]) + "vopaque_closure()" + "".join(t.text for t in tk[hit[1] + 1:])
+            cnt += 1
+        if not cnt:
+            raise ExtractError(f"anchor lost: no `move || {{ .. }}` closure in {f.name}")
+        rules.append(("R11d", f"{cnt} `move || {{ .. }}` closure(s) replaced by vopaque_closure(): their bodies are not verified"))
     body = rewrite_body(body_src, rules, intended_panics=bool(a.get("intended_panics")))
     body = apply_r9(body, rules)
     if a.get("tls_with"):
